@@ -599,6 +599,8 @@ def _emit_templates(fn: Function) -> List[Tuple[ast.AST, Template, str]]:
 def run(repo: Repo, rep: Report, tier: str) -> None:
     from sa.report import guarded as _guarded
 
+    _guarded(rep, rule_enum_member_values_verbatim, repo, rep, "R15.10")
+
     live = repo.import_closure(["generator.client_generator"])
     mods = [m for m in live if m.startswith(EMIT_MODULE_PREFIXES)]
     n_holes = 0
@@ -1192,3 +1194,104 @@ def rule_enum_default_by_value(repo: Repo, rep, rule: str = "R15.9") -> None:
             rep.ok(rule, sub, "the member is taken from the enum generator's own member list, by value", fn.loc(r))
     if n == 0:
         rep.ok(rule, f"{dg.relpath}:_get_field_default enum defaults", "no `<Enum>.<MEMBER>` default is emitted (defaults are not resolved to member names)", fn.loc())
+
+
+_R1510_TRANSFORMS = {"strip", "lstrip", "rstrip", "lower", "upper", "title", "capitalize", "casefold", "swapcase", "replace", "translate", "expandtabs",
+                     "removeprefix", "removesuffix", "split", "rsplit", "splitlines", "join", "partition", "encode", "zfill", "center", "ljust", "rjust", "sub"}
+_R1510_EXAMPLE = '''
+def _generate_members(self, schema):
+    values = []
+    for raw in schema.enum or []:
+        member_value = str(raw).strip()
+        name = self._name_for(member_value)
+        values.append((name, member_value))
+    return values
+'''
+
+
+def _r1510_members(fn_node: ast.AST) -> tuple[int, list[tuple[str, ast.AST]]]:
+    """(value carriers found, [(name, transforming construct)]) for loops over `<schema>.enum` that collect (member name, member value) pairs."""
+    n_val = 0
+    bad: list[tuple[str, ast.AST]] = []
+    for lp in ast.walk(fn_node):
+        if not isinstance(lp, ast.For) or not any(isinstance(a, ast.Attribute) and a.attr == "enum" for a in ast.walk(lp.iter)):
+            continue
+        carriers: set[str] = set()
+        for c in ast.walk(lp):
+            pair = None
+            if isinstance(c, ast.Call) and isinstance(c.func, ast.Attribute) and c.func.attr == "append" and c.args and isinstance(c.args[0], ast.Tuple) and len(c.args[0].elts) == 2:
+                pair = c.args[0]
+            elif isinstance(c, ast.Yield) and isinstance(c.value, ast.Tuple) and len(c.value.elts) == 2:
+                pair = c.value
+            elif isinstance(c, ast.Assign) and len(c.targets) == 1 and isinstance(c.targets[0], ast.Subscript):
+                pair = ast.Tuple(elts=[c.targets[0].slice, c.value], ctx=ast.Load())  # members[name] = value
+            if pair is not None:
+                v = pair.elts[1]
+                if isinstance(v, ast.Name):
+                    carriers.add(v.id)
+                else:
+                    n_val += 1
+                    bad += [("<pair>", x) for x in ast.walk(v) if _r1510_is_transform(x)]
+        # chase plain copies backwards
+        changed = True
+        while changed:
+            changed = False
+            for st in ast.walk(lp):
+                if isinstance(st, ast.Assign) and len(st.targets) == 1 and isinstance(st.targets[0], ast.Name) and st.targets[0].id in carriers:
+                    for x in ast.walk(st.value):
+                        if isinstance(x, ast.Name) and x.id not in carriers and not (isinstance(parent(x), ast.Call) and parent(x).func is x):
+                            # only through builtin conversions / str methods, never through helper calls (those derive *names*)
+                            up = parent(x)
+                            through_helper = False
+                            while up is not None and up is not st:
+                                if isinstance(up, ast.Call) and not (isinstance(up.func, ast.Name) and up.func.id in ("str", "int", "float", "repr")) and not (
+                                        isinstance(up.func, ast.Attribute) and up.func.attr in _R1510_TRANSFORMS):
+                                    through_helper = True
+                                up = parent(up)
+                            if not through_helper and isinstance(lp.target, ast.Name) and x.id != lp.target.id and any(
+                                    isinstance(s2, ast.Assign) and any(isinstance(t, ast.Name) and t.id == x.id for t in s2.targets) for s2 in ast.walk(lp)):
+                                carriers.add(x.id)
+                                changed = True
+        n_val += len(carriers)
+        for st in ast.walk(lp):
+            tg = st.targets[0] if isinstance(st, ast.Assign) and len(st.targets) == 1 else st.target if isinstance(st, (ast.AnnAssign, ast.AugAssign)) else None
+            if isinstance(tg, ast.Name) and tg.id in carriers and getattr(st, "value", None) is not None:
+                bad += [(tg.id, x) for x in ast.walk(st.value) if _r1510_is_transform(x)]
+    return n_val, bad
+
+
+def _r1510_is_transform(x: ast.AST) -> bool:
+    if isinstance(x, ast.Call) and isinstance(x.func, ast.Attribute) and x.func.attr in _R1510_TRANSFORMS:
+        return True
+    return isinstance(x, ast.Subscript) and isinstance(x.slice, ast.Slice)
+
+
+def rule_enum_member_values_verbatim(repo: Repo, rep, rule: str = "R15.10") -> None:
+    """The literal of an enum member is the document's value: between `schema.enum` and the value half of the (name, value) pairs there is a
+    conversion to the base type and nothing else.  A trim / case fold / replace / slice on the way (`str(v).strip()`, reasonable for the member
+    *name*) emits a different string than the API uses, and two values that differ only in what was removed collapse under `@unique`."""
+    n, bad = _r1510_members(ast.parse(_R1510_EXAMPLE).body[0])
+    rep.require(n >= 1 and len(bad) == 1, f"{rule}: the built-in positive example is no longer recognised - the rule is broken")
+    total = 0
+    hits = []
+    anchor = None
+    for mod in repo.modules.values():
+        if not mod.name.endswith("enum_generator"):
+            continue
+        anchor = mod
+        for q, fn in sorted(mod.functions.items()):
+            if "<locals>" in q:
+                continue
+            k, bad = _r1510_members(fn.node)
+            total += k
+            hits += [(mod, q, fn, nm, x) for nm, x in bad]
+    if anchor is None:
+        raise AnalysisError(f"{rule}: anchor vanished: enum_generator")
+    rep.count(f"{rule}:value_carriers", total)
+    rep.require(total >= 1, f"{rule}: no (name, value) pair built from `schema.enum` found in {anchor.relpath}")
+    for mod, q, fn, nm, x in hits:
+        rep.violation(rule, f"{mod.relpath}:{q} value of an enum member (`{nm}`)", f"{mod.name}:{q}|enum-value-transformed|{norm(x)[:40]}",
+                      f"`{norm(x)[:60]}` rewrites the value that becomes the member's literal: the generated enum no longer evaluates to the document's string "
+                      "(outer whitespace, case, ...), and values that differ only there collide", fn.loc(x))
+    if not hits:
+        rep.ok(rule, f"{anchor.relpath}: enum member values reach the literal converted to the base type only", f"{total} value carriers", f"{anchor.relpath}:1")
